@@ -124,6 +124,12 @@ add("C09", "exploration",
     "Children answer the same id in submission order (different ids out of order); 'first rejecting child' is read as lowest index or earliest reply.",
     "DESIGN.md section 4, C09")
 
+add("C12", "exploration",
+    "runtime monitoring: recording handler behind NewRelay + real WebSocket client (coder/websocket) with pipelined seeded frame sequences; frame-by-frame conservation oracle (admitted = valid authentic frames in order; one rejection per other frame; handler output intact and ordered); race detector",
+    "Per connection 20-200 pipelined frames: valid messages of all five types, genuine hostile-content events, every C11 corruption class, non-messages, invalid UTF-8, binary frames, unsigned / altered-after-admission / wrong-canonicalisation / unparsable-key events; the handler log must equal the valid authentic frames once each in order, the client must get exactly one rejection per other frame, a sentinel REQ after the last frame must still get through, and every marked handler emission (all seven server message types, hostile strings) must arrive as one text frame decoding to the emitted value, in order. Held on the connections/frames counted in the evidence." + RACE,
+    "Frames stay within the configured size limit and rate limit (both raised); rejections are counted, not matched to frames (a NOTICE does not name its frame); reuses C11's generators and reference validator for what a frame denotes.",
+    "DESIGN.md section 4, C12")
+
 NOT_YET = "check not built yet in this revision (work in progress; see DESIGN.md)"
 
 
